@@ -31,6 +31,13 @@ def run_for(rep, tier, seed, pid):
     for line, why, fn in v["rejects"]:
         mine = re.findall(r'<<"%s", (\d+), "([^"]*)", "([^"]*)", (-?\d+), (-?\d+)>>' % pid, why)
         if not mine:
+            if re.search(r'<<"C0[69]", ', why):
+                continue            # clauses of the sibling property only (C06 / C09 share this trace)
+            # a crash, hang or any rejection without a property tag counts for both
+            rp = os.path.join(d, "replay", "%s_%d.ndjson" % (pid.lower(), line))
+            os.makedirs(os.path.dirname(rp), exist_ok=True)
+            core.extract_execution(obs, line, rp, boundary="{")
+            rep.violation("%s %s" % (pid, why[:80]), rp, why[:300])
             continue
         rp = os.path.join(d, "replay", "%s_%d.ndjson" % (pid.lower(), line))
         os.makedirs(os.path.dirname(rp), exist_ok=True)
